@@ -18,6 +18,36 @@ CLAIMED = {
             "machine-checked proof in Coq + model/implementation correspondence (extracted OCaml vs Go)"),
 }
 
+CLAIMED["C17"] = ("proof",
+    "Coq theorems over a table-generic Gallina model of TryExpandError / RpcErrorToNative / the tryToProcessErr decision: totality (no panic) for every text, "
+    "parameter extraction and X-substitution for every row of any table passing the decidable table_ok, plain delivery of absent / non-numeric / out-of-range "
+    "parameters, description lookup with one verb, the PHONE_MIGRATE decision; instantiated by vm_compute on the tables regenerated from the tree on every run. "
+    "Tied to the code by a differential run of the extracted model against RpcErrorToNative, TryExpandError, fmt.Sprintf and tryToProcessErr.",
+    "DESIGN.md section 8 (C17)",
+    "Trusted: Coq kernel; extraction + OCaml driver; Go harness; the verif export of the tables. strconv.Atoi and the one-operand fmt.Sprintf subset are re-implemented in "
+    "Gallina and compared, not proved. The live reconnect-and-repeat half of PHONE_MIGRATE needs the in-process server (covered with the client properties).",
+    "machine-checked proof in Coq + regenerated tables + model/implementation correspondence")
+
+CLAIMED["C01"] = ("proof",
+    "Registry-generic Gallina model of the reflection encoder/decoder (TL/Types.v, TL/Codec.v) with the round-trip theorem decode(encode v) = norm v for every well-formed "
+    "type universe and every well-typed value (TL/RoundTrip.v), instantiated on the type universe regenerated from the tree by reflection on every run (Inst/C01i.v: every "
+    "struct descriptor well-formed, every constructor registered under its own id). Tied to the code by running tl.Marshal / tl.Decode / tl.DecodeUnknownObject and the "
+    "extracted model on the same values for every type of the universe (all flag-group presence patterns, boundary lengths, extremes), byte for byte.",
+    "DESIGN.md section 8 (C01)",
+    "Trusted: Coq kernel; the reflection translator and value abstraction; extraction + OCaml driver. Values outside the typing predicate (nil mandatory pointers, "
+    "oversized big integers) compared by result class only. GzipPacked is decode-only in the library.",
+    "machine-checked proof in Coq + regenerated registry + model/implementation correspondence")
+
+CLAIMED["C15"] = ("proof",
+    "Same decoder model with an explicit Panic outcome at every Go panic site and fuel: theorems that decoding never panics for any bytes, hints and any universe meeting the "
+    "decidable np_universe condition (TL/NoPanic.v), that input-linear fuel suffices (TL/Total.v) and that every count passed to an allocation is bounded by the unread input; "
+    "np_universe is re-proved on the regenerated registry each run (Inst/C15i.v). Tied to the code by decoding tens of thousands of structure-aware mutants in a child process "
+    "under an address-space limit and comparing result classes and values with the extracted model.",
+    "DESIGN.md section 8 (C15)",
+    "Trusted: as C01; compress/gzip is an oracle (Section variable inflate); memory exhaustion is observed through the child's RLIMIT_AS, the theorem bounds the counts. "
+    "gzip expansion is exempt by the property.",
+    "machine-checked proof in Coq + regenerated registry + fault-enumeration correspondence")
+
 PENDING_REASON = "check not built yet in this round (machinery under construction; see DESIGN.md section 9 order of work)"
 
 
@@ -62,7 +92,7 @@ def main():
         json.dump(m, f, indent=1)
 
 
-HOOK_COMMITS = []
+HOOK_COMMITS = ["8cc65cc", "33a3c78"]
 
 if __name__ == "__main__":
     main()
